@@ -126,6 +126,10 @@ def collision_cases():
         'run_x': "run_target('x', command: ['true'])",
         'alias_x': "alias_target('x', custom_target('dep_for_alias', input: 'in.txt', output: 'dfa.txt', command: ['cp', '@INPUT@', '@OUTPUT@']))",
         'ct_two_outputs_same': "custom_target('two', input: 'in.txt', output: ['o.txt', 'o.txt'], command: ['cp', '@INPUT@', '@OUTPUT0@'])",
+        # the colliding name in each position of a statement with several outputs
+        'ct_multi_x_first': "custom_target('m1', input: 'in.txt', output: ['x', 'm1b.txt', 'm1c.txt'], command: ['cp', '@INPUT@', '@OUTPUT0@'])",
+        'ct_multi_x_mid': "custom_target('m2', input: 'in.txt', output: ['m2a.txt', 'x', 'm2c.txt'], command: ['cp', '@INPUT@', '@OUTPUT0@'])",
+        'ct_multi_x_last': "custom_target('m3', input: 'in.txt', output: ['m3a.txt', 'm3b.txt', 'x'], command: ['cp', '@INPUT@', '@OUTPUT0@'])",
         'cfg_out_x': "configure_file(input: 'in.txt', output: 'x', copy: true)",
         'ct_out_x_p': ct % ('ctxp', 'x.p'),
         'ct_out_build_ninja': ct % ('ctbn', 'build.ninja'),
@@ -145,7 +149,10 @@ def collision_cases():
              ('shared_foo', 'ct_out_libfoo_so'), ('shared_foo_versioned', 'ct_out_libfoo_so_1'), ('shared_foo_versioned', 'ct_out_libfoo_so_123'),
              ('shared_foo_versioned', 'ct_out_libfoo_so'), ('static_foo', 'shared_foo'), ('both_foo', 'static_foo'), ('both_foo', 'shared_foo'),
              ('both_foo', 'ct_out_libfoo_a'), ('exe_x', 'run_x'), ('exe_x', 'alias_x'), ('run_x', 'ct_out_x'), ('run_x', 'alias_x'), ('exe_x', 'cfg_out_x'),
-             ('ct_out_x', 'cfg_out_x'), ('exe_x', 'ct_out_x_p'), ('run_x', 'ct_named_x_out_y'), ('alias_x', 'ct_named_x_out_y'), ('alias_x', 'ct_out_x')]
+             ('ct_out_x', 'cfg_out_x'), ('exe_x', 'ct_out_x_p'),
+             ('ct_out_x', 'ct_multi_x_first'), ('ct_out_x', 'ct_multi_x_mid'), ('ct_out_x', 'ct_multi_x_last'),
+             ('exe_x', 'ct_multi_x_first'), ('exe_x', 'ct_multi_x_mid'), ('exe_x', 'ct_multi_x_last'),
+             ('ct_multi_x_first', 'ct_multi_x_mid'), ('ct_multi_x_mid', 'ct_multi_x_last'), ('ct_multi_x_first', 'ct_multi_x_last'), ('run_x', 'ct_named_x_out_y'), ('alias_x', 'ct_named_x_out_y'), ('alias_x', 'ct_out_x')]
     for a, b in pairs:
         for x, y in ((a, b), (b, a)):
             cases.append(('%s+%s' % (x, y), [decls[x], decls[y]], [], 'mirror'))
